@@ -71,6 +71,9 @@ def body(led):
     lemma_by_parts(led)
     py_panel.check_calc_kA(led)
     py_panel.check_calc_cA(led)
+    from . import c19_bay
+    c19_bay.check(led)
+    c19_bay.check_cA(led)
     ok, _ = K.compare(real('beta') * 2, real('beta'))
     led.canary('2*beta vs beta', not ok)
     _standin(led)
